@@ -243,6 +243,24 @@ class Gen:
             for k in (1, 2, 3):
                 s += ['!failalloc %d' % k, tline]
         out.append(s)
+        # the same for every other wrapper (method and free function) that reaches one of the XRL_ERROR_MEMORY sites of src/ (the lookup's
+        # Crystal_MakeCopy; the three NIST and the three nuclide functions at further catalogue entries): the FIRST allocation of the C call
+        # fails - the one injection point at which the unchanged library reports the failure cleanly everywhere (C03/C04) - so C answers
+        # code 0 and the wrapper must throw std::bad_alloc.  (seeded change C18-11: _process_error without its XRL_ERROR_MEMORY case)
+        s = []
+        cn = rng.sample(cat['crystals'], 3)
+        more = ['Q_scattering_amplitude %s %s 1 1 1 %s E' % (xapi.sarg(cn[0]), xapi.hx(8.0), xapi.hx(1.0)),
+                'Crystal_F_H_StructureFactor %s %s 2 2 0 %s %s E' % (xapi.sarg(cn[1]), xapi.hx(17.44), xapi.hx(1.0), xapi.hx(1.0)),
+                'Crystal_F_H_StructureFactor_Partial %s %s 1 1 1 %s %s 2 2 2 E' % (xapi.sarg(cn[2]), xapi.hx(8.0), xapi.hx(1.0), xapi.hx(1.0)),
+                'Crystal_UnitCellVolume %s E' % xapi.sarg(cn[0]), 'Crystal_dSpacing %s 1 1 1 E' % xapi.sarg(cn[1]),
+                'StructNew %s %s 1 1 1 E' % (xapi.sarg(cn[2]), xapi.sarg(cn[2] + '_new'))]
+        lo, hi = self.ranges['nist']; more += ['GetCompoundDataNISTByIndex %d E' % i for i in rng.sample(range(lo, hi + 1), 3)]
+        more += ['GetCompoundDataNISTByName %s E' % xapi.sarg(n) for n in rng.sample(cat['nist'], 3)]
+        lo, hi = self.ranges['nuclide']; more += ['GetRadioNuclideDataByIndex %d E' % i for i in rng.sample(range(lo, hi + 1), 3)]
+        more += ['GetRadioNuclideDataByName %s E' % xapi.sarg(n) for n in rng.sample(cat['nuclides'], 3)]
+        more += ['Crystal_GetCrystal %s E' % xapi.sarg(n) for n in cn]
+        for tline in more: s += ['!failalloc 1', tline]
+        out.append(s)
         # fill the built-in crystal array (fixed size): once it is full Crystal_AddCrystal reports XRL_ERROR_RUNTIME — the one code other than
         # MEMORY / INVALID_ARGUMENT that a wrapped C function produces on this tree — through both routes
         s = []
@@ -628,6 +646,11 @@ class C18:
         if pe['frees'] and leaks:
             rep['tie_broken'].append('_process_error releases the error according to the extraction, but %d throwing calls still leave 2 blocks' % len(leaks))
         ctx.skipped = skipped; ctx.distK = distK
+        if not replay:
+            # non-vacuity of the allocation-failure injection: a run in which no wrapped C call reported XRL_ERROR_MEMORY has not compared the bad_alloc clause
+            mem = {k: d['err'].get('0', 0) for k, d in dist.items() if k.split('@')[0] != 'ProcessError' and d['err'].get('0', 0)}
+            ctx.memory_error_calls = mem
+            if len(mem) < 8: rep['problems'].append('allocation-failure injection: only %d wrappers/routes were compared on a C call that reported XRL_ERROR_MEMORY (%s)' % (len(mem), sorted(mem)))
         return self.report(ctx, b, rep, viols, leaks, lsan, dist, samples, n_eval, len(nontriv), replay)
 
     def hist_obs(self, b, cat):
@@ -838,7 +861,7 @@ class C18:
                                        '(quick tier: half of the 24 orders, chosen by the seed); CList = the C list function called directly inside the C++ process; the C driver is the reference on every line'),
                    routes=dict(getattr(ctx, 'routes', {}), note='Bragg_angle, Q_scattering_amplitude, F_H_StructureFactor(_Partial), UnitCellVolume, dSpacing: every line through the Crystal::Struct method AND the '
                                'free function of namespace Crystal (keys `<op>@free-function`); AddCrystal: StructAdd (method) / StructAddF (free function) lines'),
-                   error_codes=code_tab,
+                   error_codes=code_tab, memory_error_calls_through_wrappers=getattr(ctx, 'memory_error_calls', {}),
                    error_codes_note='codes other than MEMORY (allocation-failure injection), INVALID_ARGUMENT and RUNTIME (built-in crystal array full) cannot be provoked through a wrapped C function on this tree: '
                                     'IO is set by Crystal_ReadFile only (not wrapped by design), TYPE and UNSUPPORTED by nothing; for those the class and the message are compared on _process_error driven directly',
                    wrapper_table=dict(c_prototypes=len(b['tables']['protos']), wrapper_entries=len(b['tables']['wrappers']), process_error=b['tables']['pe'],
